@@ -376,6 +376,19 @@ def run_case(case):
                             'what': 'PGPMessage.new(%r..., format=%r).message returns %r...: the content is not read under the encoding it was written in'
                                     % (want['input'][:12], case.get('format'), m.message[:12])})
             check_roundtrip(m, raw, case, cfg, fails, 'binary', raw)
+            # a copy shares nothing with the original: what is done to the copy leaves the original's export as it was
+            try:
+                c = copy.copy(m)
+                c.ascii_headers['Comment'] = 'changed on the copy'
+                if c._message is not None and hasattr(c._message, 'filename'):
+                    c._message.filename = 'changed-on-the-copy'
+                    c._message._contents = bytearray(b'changed on the copy')
+                if c._signatures:
+                    c._signatures.pop()
+                if bytes(m) != raw or 'Comment' in m.ascii_headers:
+                    fails.append('changing a copy of the message changed the original')
+            except Exception as ex:
+                fails.append('changing a copy of the message raised %s: %s' % (type(ex).__name__, str(ex)[:60]))
             if case.get('armor', True):
                 check_roundtrip(m, raw, case, cfg, fails, 'armored', str(m))
         else:
